@@ -144,11 +144,11 @@ func (e *Engine) c9Reject(key uint64) {
 func (e *Engine) c9Added(key uint64, added bool, nvict int) {
 	d := &e.dec9
 	if !d.active || d.key != key {
-		if !added {
-			// the applier turned a newcomer away without asking the policy: none
-			// of the causes the discipline allows (too large, already resident,
-			// out-voted by the least-frequent candidate) was established
-			e.violate("C09", "turned-away-without-decision", fmt.Sprintf("newcomer %#x was not admitted although the admission policy was never consulted for it", key), 0)
+		if !added && !e.keyAccounted(key) && e.curNew != nil && !e.allowedRejectCause(key, e.curNew) {
+			// the applier turned a newcomer away without asking the policy, and
+			// neither of the causes the harness can see for itself holds (too
+			// large, key already resident)
+			e.violate("C09", "turned-away-without-decision", fmt.Sprintf("newcomer %#x was not admitted although it is not larger than the cache, its key is not resident and the admission policy was never consulted for it", key), 0)
 		}
 		return
 	}
@@ -206,6 +206,16 @@ func (e *Engine) c9Added(key uint64, added bool, nvict int) {
 			e.violate("C09", "resident-readmitted", fmt.Sprintf("key %#x was already accounted but Add reported it as added", key), 0)
 		}
 	}
+}
+
+func (e *Engine) keyAccounted(key uint64) bool {
+	kcs, _, _ := e.api.PolicyCostsLocked()
+	for _, kc := range kcs {
+		if kc.Key == key {
+			return true
+		}
+	}
+	return false
 }
 
 func (e *Engine) c9Done(key uint64) {
